@@ -1,4 +1,170 @@
 import BoltonsVerif.C18.Proofs
+/-
+C18 — property theorems (statements, short derivations from the lemma files, non-vacuity examples).
+
+Models (Model.lean): `SBytes` = SpooledBytesIO, `SStr` = SpooledStringIO on the transliterated
+`codecs.StreamReader`, `MFR` = MultiFileReader, `File` = io.BytesIO / TemporaryFile, `Spec.run sem` = the
+same history on a plain file (io.BytesIO for `bytesSem`, io.StringIO(newline='') for `textSem`).
+A history is a `List Op`; `validB` / `validS` are the statement's own domain (appending writes of text,
+seek targets inside the data), evaluated along the reference run.
+-/
 namespace C18
-theorem placeholder_chunk_pos : 0 < C18.Generated.READ_CHUNK_SIZE := by decide
+
+/-! ## SpooledBytesIO -/
+
+/-- outputs, final content and final position do not depend on `max_size` (rolled over or not) — every history -/
+theorem rollover_invisible_bytes (ops : List (Op Byte)) (m₁ m₂ : Nat) :
+    ((SBytes.init m₁).run ops).1 = ((SBytes.init m₂).run ops).1 ∧
+    ((SBytes.init m₁).run ops).2.buf = ((SBytes.init m₂).run ops).2.buf := by
+  have h1 := SBytes.run_eq (SBytes.init m₁) ops
+  have h2 := SBytes.run_eq (SBytes.init m₂) ops
+  exact ⟨by rw [h1.1, h2.1]; rfl, by rw [h1.2, h2.2]; rfl⟩
+
+/-- SpooledBytesIO returns what io.BytesIO returns and ends with the same content and position -/
+theorem bytes_refines_BytesIO (m : Nat) (ops : List (Op Byte)) (hv : validB File.empty ops = true) :
+    ((SBytes.init m).run ops).1 = (Spec.run bytesSem File.empty ops).1 ∧
+    ((SBytes.init m).run ops).2.buf = (Spec.run bytesSem File.empty ops).2 := by
+  have h1 := SBytes.run_eq (SBytes.init m) ops
+  have h2 := bRun_spec File.empty ops (by simp [InRange, File.empty]) hv
+  exact ⟨by rw [h1.1]; show (bRun File.empty ops).1 = _; rw [h2], by rw [h1.2]; show (bRun File.empty ops).2 = _; rw [h2]⟩
+
+/-- `tell`, `getvalue`, `len` report position, content, length and leave both untouched — in every state -/
+theorem bytes_queries_do_not_move (s : SBytes) :
+    (s.step .tell) = (.num s.buf.pos, s) ∧
+    (s.step .getvalue).1 = .data s.buf.data ∧ (s.step .getvalue).2.buf = s.buf ∧
+    (s.step .len).1 = .num s.buf.data.length ∧ (s.step .len).2.buf = s.buf := by
+  have hg := SBytes.getvalue_eq s
+  have hl := SBytes.len_eq s
+  exact ⟨rfl, by simp [SBytes.step, hg.1], hg.2, by simp [SBytes.step, hl.1], hl.2⟩
+
+/-- removing a query from a history changes no other output and not the final state -/
+theorem bytes_queries_invisible (m : Nat) (ops₁ ops₂ : List (Op Byte)) (q : Op Byte) (hq : isQuery q = true)
+    (hv : validB File.empty (ops₁ ++ ops₂) = true) :
+    ((SBytes.init m).run (ops₁ ++ q :: ops₂)).1.eraseIdx ops₁.length = ((SBytes.init m).run (ops₁ ++ ops₂)).1 ∧
+    ((SBytes.init m).run (ops₁ ++ q :: ops₂)).2.buf = ((SBytes.init m).run (ops₁ ++ ops₂)).2.buf := by
+  have h1 := bytes_refines_BytesIO m _ (validB_insert_query File.empty ops₁ ops₂ q hq hv)
+  have h2 := bytes_refines_BytesIO m _ hv
+  have h3 := Spec.query_invisible bytesSem File.empty ops₁ ops₂ q hq
+  exact ⟨by rw [h1.1, h2.1]; exact h3.1, by rw [h1.2, h2.2]; exact h3.2⟩
+
+/-! ## SpooledStringIO -/
+
+/-- the constant the source uses keeps the side condition of the theorems below -/
+theorem real_chunk_size_pos : 0 < C18.Generated.READ_CHUNK_SIZE := by decide
+
+/-- SpooledStringIO (over the codec reader with its byte / character / line buffers) returns, for every history
+    in the statement's domain and every `max_size` and READ_CHUNK_SIZE > 0, what a plain text file returns whose
+    `readline` / iteration cut at `str.splitlines` boundaries (`codecSem`); positions count code points and the
+    stored bytes are the encoding of the text -/
+theorem string_refines_codec_reference (ms ch : Nat) (hch : 0 < ch) (ops : List (Op Char))
+    (hv : validS File.empty ops = true) :
+    ((SStr.init ms ch).run ops).1 = (Spec.run codecSem File.empty ops).1 ∧
+    ((SStr.init ms ch).run ops).2.tell = (Spec.run codecSem File.empty ops).2.pos ∧
+    ((SStr.init ms ch).run ops).2.st.data = encode (Spec.run codecSem File.empty ops).2.data := by
+  have h := SStr.run_spec (SStr.init ms ch) File.empty ops (SRel_init ms ch hch) hv
+  exact ⟨h.1, h.2.2.1, h.2.1.data⟩
+
+/-- outputs, final position and final content do not depend on `max_size` (nor on the read chunk size) -/
+theorem rollover_invisible_string (ops : List (Op Char)) (hv : validS File.empty ops = true)
+    (ms₁ ms₂ ch₁ ch₂ : Nat) (h₁ : 0 < ch₁) (h₂ : 0 < ch₂) :
+    ((SStr.init ms₁ ch₁).run ops).1 = ((SStr.init ms₂ ch₂).run ops).1 ∧
+    ((SStr.init ms₁ ch₁).run ops).2.tell = ((SStr.init ms₂ ch₂).run ops).2.tell ∧
+    ((SStr.init ms₁ ch₁).run ops).2.st.data = ((SStr.init ms₂ ch₂).run ops).2.st.data := by
+  have a := string_refines_codec_reference ms₁ ch₁ h₁ ops hv
+  have b := string_refines_codec_reference ms₂ ch₂ h₂ ops hv
+  exact ⟨by rw [a.1, b.1], by rw [a.2.1, b.2.1], by rw [a.2.2, b.2.2]⟩
+
+/- FULL statement: for every history in the domain, SpooledStringIO = io.StringIO(newline='').
+   It is FALSE on texts holding VT, FF, FS, GS, RS, NEL, LS or PS (see `string_readline_exotic_false`);
+   proved for histories whose line-cutting operations (readline, next, iteration) meet no such character. -/
+/-- SpooledStringIO returns what io.StringIO(newline='') returns, positions counting code points -/
+theorem string_refines_StringIO_partial (ms ch : Nat) (hch : 0 < ch) (ops : List (Op Char))
+    (hv : validS File.empty ops = true) (hp : plainS File.empty ops = true) :
+    ((SStr.init ms ch).run ops).1 = (Spec.run textSem File.empty ops).1 ∧
+    ((SStr.init ms ch).run ops).2.tell = (Spec.run textSem File.empty ops).2.pos ∧
+    ((SStr.init ms ch).run ops).2.st.data = encode (Spec.run textSem File.empty ops).2.data := by
+  rw [← Spec.run_plain File.empty ops hp]
+  exact string_refines_codec_reference ms ch hch ops hv
+
+/-- the unrestricted statement fails: after `write('a\x0cb\n'); seek(0)`, `readline()` stops at the form feed -/
+theorem string_readline_exotic_false :
+    ∃ (ops : List (Op Char)), validS File.empty ops = true ∧
+      ((SStr.init 100 3).run ops).1 ≠ (Spec.run textSem File.empty ops).1 :=
+  ⟨[.write ['a', Char.ofNat 0x0c, 'b', '\n'], .seek 0, .readline], by decide +kernel, by decide +kernel⟩
+
+/-- `tell()` is the number of code points before the logical position; the raw stream position is that many
+    characters' bytes plus the codec's decoded read-ahead plus its undecoded partial character -/
+theorem tell_is_codepoint_index (ms ch : Nat) (hch : 0 < ch) (ops : List (Op Char))
+    (hv : validS File.empty ops = true) :
+    ((SStr.init ms ch).run ops).2.tell ≤ (Spec.run codecSem File.empty ops).2.data.length ∧
+    ((SStr.init ms ch).run ops).2.st.pos =
+      blen ((Spec.run codecSem File.empty ops).2.data.take ((SStr.init ms ch).run ops).2.tell)
+      + blen (pend ((SStr.init ms ch).run ops).2.rd) + ((SStr.init ms ch).run ops).2.rd.bytebuf.length := by
+  have h := SStr.run_spec (SStr.init ms ch) File.empty ops (SRel_init ms ch hch) hv
+  exact ⟨h.2.1.ale, Coh_stream_pos _ _ h.2.1⟩
+
+/-- `tell`, `getvalue`, `len` inserted anywhere change no other output, nor the final position and content -/
+theorem string_queries_do_not_move (ms ch : Nat) (hch : 0 < ch) (ops₁ ops₂ : List (Op Char)) (q : Op Char)
+    (hq : isQuery q = true) (hv : validS File.empty (ops₁ ++ ops₂) = true) :
+    ((SStr.init ms ch).run (ops₁ ++ q :: ops₂)).1.eraseIdx ops₁.length = ((SStr.init ms ch).run (ops₁ ++ ops₂)).1 ∧
+    ((SStr.init ms ch).run (ops₁ ++ q :: ops₂)).2.tell = ((SStr.init ms ch).run (ops₁ ++ ops₂)).2.tell ∧
+    ((SStr.init ms ch).run (ops₁ ++ q :: ops₂)).2.st.data = ((SStr.init ms ch).run (ops₁ ++ ops₂)).2.st.data := by
+  have h1 := string_refines_codec_reference ms ch hch _ (validS_insert_query File.empty ops₁ ops₂ q hq hv)
+  have h2 := string_refines_codec_reference ms ch hch _ hv
+  have h3 := Spec.query_invisible codecSem File.empty ops₁ ops₂ q hq
+  exact ⟨by rw [h1.1, h2.1]; exact h3.1, by rw [h1.2.1, h2.2.1, h3.2], by rw [h1.2.2, h2.2.2, h3.2]⟩
+
+/-! ## MultiFileReader -/
+
+variable {α : Type}
+
+/-- any history of sized / unsized reads and `seek(0)` returns what ONE file holding the concatenation returns -/
+theorem mfr_concat (cs : List (List α)) (ops : List MOp) :
+    ((MFR.init cs).run ops).1 = (MFR.specRun ⟨cs.flatten, 0⟩ ops).1 :=
+  (MFR.run_spec (MFR.init cs) ⟨cs.flatten, 0⟩ ops (MRel_init cs)).1
+
+/-- without `seek(0)`: what the reads returned, followed by what is still unread, is the concatenation —
+    every unit exactly once, in order -/
+theorem mfr_each_unit_once (cs : List (List α)) (ops : List MOp) (hr : ∀ op ∈ ops, op.isRead = true) :
+    (((MFR.init cs).run ops).1.filterMap id).flatten ++ ((MFR.init cs).run ops).2.rem = cs.flatten := by
+  have h := MFR.run_spec (MFR.init cs) ⟨cs.flatten, 0⟩ ops (MRel_init cs)
+  rw [h.1, ← h.2.2.1, MFR.specRun_reads _ ops hr]
+  simp [File.rest]
+
+/-- an unsized read after any reads returns all the rest: nothing is left -/
+theorem mfr_read_all_drains (cs : List (List α)) (ops : List MOp) :
+    ((MFR.init cs).run (ops ++ [.readAll])).2.rem = [] := by
+  have h := MFR.run_spec (MFR.init cs) ⟨cs.flatten, 0⟩ (ops ++ [.readAll]) (MRel_init cs)
+  rw [← h.2.2.1, MFR.specRun_append]
+  simp [MFR.specRun, MFR.specStep, File.readAll_rest]
+
+/-- after any history, `seek(0)` then `read()` returns the whole concatenation again -/
+theorem mfr_seek0_restarts (cs : List (List α)) (ops : List MOp) :
+    ((MFR.init cs).run (ops ++ [.seek0, .readAll])).1 = ((MFR.init cs).run ops).1 ++ [none, some cs.flatten] := by
+  rw [mfr_concat, mfr_concat, MFR.specRun_append]
+  simp only [MFR.specRun, MFR.specStep, File.readAll_fst]
+  rw [File.rest_seek0, MFR.specRun_data]
+
+/-! ## non-vacuity: concrete histories inside the hypotheses -/
+
+/-- a history with a rollover (max_size 4), multi-byte text, a read that stops inside a character's bytes,
+    a code-point seek, `len` and iteration — it satisfies `validS` and `plainS` -/
+def demoS : List (Op Char) :=
+  [.write ['a', 'é', 'é', '\n'], .seek 0, .read 2, .len, .readline, .seekEnd 0, .write ['日', '\r', '\n', 'x'],
+   .seek 3, .list, .getvalue, .tell]
+
+example : validS File.empty demoS = true ∧ plainS File.empty demoS = true := by decide +kernel
+example : ((SStr.init 4 2).run demoS).1 = (Spec.run textSem File.empty demoS).1 := by decide +kernel
+example : ((SStr.init 4 2).run demoS).2.rolled = true ∧ ((SStr.init 1000 2).run demoS).2.rolled = false := by
+  decide +kernel
+
+def demoB : List (Op Byte) :=
+  [.write [97, 10, 98], .seek 1, .readline, .write [99, 10], .seekEnd 2, .next, .len, .seek 0, .list, .tell]
+example : validB File.empty demoB = true := by decide +kernel
+example : ((SBytes.init 2).run demoB).2.rolled = true ∧ ((SBytes.init 99).run demoB).2.rolled = false := by
+  decide +kernel
+
+example : ((MFR.init [[1, 2], [], [3, 4, 5]] : MFR Nat).run [.read 3, .read 1, .seek0, .read 4, .readAll]).1
+    = [some [1, 2, 3], some [4], none, some [1, 2, 3, 4], some [5]] := by decide +kernel
+
 end C18
